@@ -420,7 +420,8 @@ impl Decl {
 
     // ------------------------------------------------------------ rendering
 
-    pub fn attr_text(&self, for_trait: bool) -> String {
+    /// the `key = value` items of the attribute, in their (permuted) order
+    pub fn attr_items(&self) -> Vec<String> {
         let mut items: Vec<String> = vec![];
         match self.kind {
             Kind::Endpoint => items.push(format!("method = {}", self.method)),
@@ -453,6 +454,16 @@ impl Decl {
         // fine; permute deterministically
         let mut rng = Rng::new(self.attr_perm);
         rng.shuffle(&mut items);
+        items
+    }
+
+    /// what the attribute macro receives as its argument token stream
+    pub fn attr_inner(&self) -> String {
+        format!("{}{}", self.attr_items().join(", "), if self.trailing_comma { "," } else { "" })
+    }
+
+    pub fn attr_text(&self, for_trait: bool) -> String {
+        let items = self.attr_items();
         let mac = match self.kind {
             Kind::Endpoint => "endpoint",
             Kind::Channel => "channel",
@@ -611,6 +622,15 @@ impl Decl {
         s
     }
 
+    /// the item as the attribute macro receives it: every other attribute
+    /// (doc comments written before and after the macro attribute, in order)
+    /// and the function
+    pub fn item_text_no_attr(&self) -> String {
+        let mut lines: Vec<String> = self.doc.src.clone();
+        lines.push(format!("{} {{ todo!() }}", self.sig("Ctx", "pub ")));
+        lines.join("\n")
+    }
+
     fn decl_text(&self, for_trait: bool, indent: &str) -> String {
         let mut lines: Vec<String> = vec![];
         let cut = self.doc.src.len().saturating_sub(self.doc_after_attr);
@@ -642,15 +662,42 @@ impl Decl {
 pub struct Program {
     pub label: String,
     pub decls: Vec<Decl>,
+    /// `context = <name>` argument of `#[dropshot::api_description]`
+    pub trait_ctx: Option<String>,
+    /// `module = "<name>"` argument
+    pub trait_module: Option<String>,
 }
 
 impl Program {
     pub fn manifest(&self) -> Value {
         json!({
             "label": self.label,
+            "api_description_args": {"context": self.trait_ctx, "module": self.trait_module},
             "default_request_body_max_bytes": DEFAULT_BODY_MAX,
             "declarations": self.decls.iter().map(|d| d.manifest()).collect::<Vec<_>>(),
         })
+    }
+
+    /// (argument tokens of `#[dropshot::api_description]`, the trait item)
+    pub fn trait_parts(&self) -> (String, String) {
+        let ctx_name = self.trait_ctx.clone().unwrap_or_else(|| "Context".to_string());
+        let mut args = vec![];
+        if let Some(c) = &self.trait_ctx {
+            args.push(format!("context = {c}"));
+        }
+        if let Some(m) = &self.trait_module {
+            args.push(format!("module = {m:?}"));
+        }
+        let mut s = format!("pub trait GenApi {{\n    type {ctx_name};\n\n");
+        for d in &self.decls {
+            s.push_str(&d.decl_text(true, "    ").replace(
+                "RequestContext<Self::Context>",
+                &format!("RequestContext<Self::{ctx_name}>"),
+            ));
+            s.push('\n');
+        }
+        s.push_str("}\n");
+        (args.join(", "), s)
     }
 
     pub fn render(&self) -> String {
@@ -702,18 +749,32 @@ impl Program {
             ));
         }
         s.push_str("        api\n    }\n}\n\nmod tr {\n    use super::*;\n");
-        s.push_str("    #[dropshot::api_description]\n    pub trait GenApi {\n        type Context;\n\n");
+        let ctx_name = self.trait_ctx.clone().unwrap_or_else(|| "Context".to_string());
+        let module = self.trait_module.clone().unwrap_or_else(|| "gen_api_mod".to_string());
+        let mut args = vec![];
+        if let Some(c) = &self.trait_ctx {
+            args.push(format!("context = {c}"));
+        }
+        if let Some(m) = &self.trait_module {
+            args.push(format!("module = {m:?}"));
+        }
+        if args.is_empty() {
+            s.push_str("    #[dropshot::api_description]\n");
+        } else {
+            s.push_str(&format!("    #[dropshot::api_description {{ {} }}]\n", args.join(", ")));
+        }
+        s.push_str(&format!("    pub trait GenApi {{\n        type {ctx_name};\n\n"));
         for d in &self.decls {
-            s.push_str(&d.decl_text(true, "        "));
+            s.push_str(&d.decl_text(true, "        ").replace("RequestContext<Self::Context>", &format!("RequestContext<Self::{ctx_name}>")));
             s.push('\n');
         }
-        s.push_str("    }\n\n    pub enum Impl {}\n    impl GenApi for Impl {\n        type Context = Ctx;\n");
+        s.push_str(&format!("    }}\n\n    pub enum Impl {{}}\n    impl GenApi for Impl {{\n        type {ctx_name} = Ctx;\n"));
         for d in &self.decls {
             s.push_str(&format!("        {} {{ {} }}\n", d.sig("Ctx", ""), d.call_logic()));
         }
         s.push_str("    }\n");
-        s.push_str("    pub fn api() -> ApiDescription<Ctx> {\n        gen_api_mod::api_description::<Impl>().expect(\"trait api_description\")\n    }\n");
-        s.push_str("    pub fn stub() -> ApiDescription<StubContext> {\n        gen_api_mod::stub_api_description().expect(\"stub_api_description\")\n    }\n}\n\n");
+        s.push_str(&"    pub fn api() -> ApiDescription<Ctx> {\n        MODULE::api_description::<Impl>().expect(\"trait api_description\")\n    }\n".replace("MODULE", &module));
+        s.push_str(&"    pub fn stub() -> ApiDescription<StubContext> {\n        MODULE::stub_api_description().expect(\"stub_api_description\")\n    }\n}\n\n".replace("MODULE", &module));
         s.push_str("fn main() {\n    genrt::main(genrt::Apis { fns: fns::api, tr: tr::api, stub: tr::stub });\n}\n");
         s
     }
@@ -1047,7 +1108,9 @@ pub fn gen_program(rng: &mut Rng, label: &str, k: usize) -> Program {
             decls.push(d);
         }
     }
-    Program { label: label.to_string(), decls }
+    let trait_ctx = if rng.chance(1, 3) { Some(["Cx", "ServerState", "MyContext"][rng.usize(3)].to_string()) } else { None };
+    let trait_module = if rng.chance(1, 3) { Some(["my_api", "api_support", "generated"][rng.usize(3)].to_string()) } else { None };
+    Program { label: label.to_string(), decls, trait_ctx, trait_module }
 }
 
 /// The fixed program: every attribute, every version syntax, every extractor
@@ -1284,7 +1347,7 @@ pub fn fixed_program() -> Program {
     };
     push(d, &mut rng);
 
-    Program { label: "fixed".into(), decls }
+    Program { label: "fixed".into(), decls, trait_ctx: None, trait_module: None }
 }
 
 /// model of dispatch: which declaration serves (method, path) at version v
